@@ -114,6 +114,15 @@ class IndexDomain(ArrNormDomain):
                         self._fresh[k] = self.length(self.fresh_lengths.pop(0))
                     return self._fresh[k]
                 return self.func_atom(dotted.split('.')[1], [args[0]])
+        if dotted in ('builtins.round', 'numpy.round', 'numpy.around', 'numpy.rint') and len(args) == 1:
+            # round-half-to-even: the identity on integers; on a half-integer it is neither floor nor ceil for every length,
+            # so it stays an opaque integer atom (equal to nothing but itself)
+            r = self.rat(args[0])
+            if r is not None:
+                af = self.affine(r)
+                if af is not None and all(c.denominator == 1 for c in af[0].values()) and af[1].denominator == 1:
+                    return args[0]
+                return self.func_atom('round_half_even', [args[0]])
         if dotted in ('numpy.zeros', 'numpy.ones', 'numpy.empty', 'numpy.zeros_like', 'numpy.empty_like') and args:
             if isinstance(args[0], Shaped):
                 return Shaped(args[0].shape, dotted)
